@@ -198,6 +198,8 @@ func (pc *propCheck) replayTranslator(o *Obligation, con *Contract) replayResult
 		}
 	}
 	special := o.Kind == "quote-free" || o.Kind == "dep-recorded"
+	// the error reporters are reached from every rejection: any witness may exercise them
+	anyWitness := strings.HasPrefix(con.FuncName, "(errorReporter)") || strings.HasPrefix(con.FuncName, "(Ctx).printGo")
 	// functions mentioned by the obligation: the contract's function and "in helper" suffixes
 	for _, w := range all {
 		if specific && len(w.Obls) == 0 {
@@ -206,7 +208,7 @@ func (pc *propCheck) replayTranslator(o *Obligation, con *Contract) replayResult
 		if special && !specific && !(o.Kind == "dep-recorded" && strings.HasPrefix(w.Expect, "order:")) {
 			continue
 		}
-		tagged := false
+		tagged := anyWitness
 		for _, f := range w.Funcs {
 			if f == con.FuncName || strings.Contains(o.Name, " in "+strings.TrimPrefix(strings.TrimPrefix(f, "(Ctx)."), "(Binding).")+"#") {
 				tagged = true
@@ -302,6 +304,13 @@ func (pc *propCheck) replayCommand() replayResult {
 	code, _ = run(out1, "./good")
 	if st, err := os.Stat(goodV); err != nil || !st.ModTime().Equal(old) {
 		return fail("goose ./good rewrote %s although its content did not change (mtime moved)", goodV)
+	}
+	// a stale, longer file that starts with the right content must be replaced
+	fresh, _ := os.ReadFile(goodV)
+	os.WriteFile(goodV, append(append([]byte(nil), fresh...), []byte("\n(* stale tail of an earlier run *)\n")...), 0o644)
+	code, _ = run(out1, "./good")
+	if now, _ := os.ReadFile(goodV); string(now) != string(fresh) {
+		return fail("goose ./good left a stale output file in place: %s is longer than the translation and starts with it, and was not rewritten", goodV)
 	}
 	code, log = run(out1, "./nonexistent-pattern-xyz")
 	if code == 0 {
